@@ -17,10 +17,11 @@ MC_QUICK = ["Pool_q1", "Pool_q2"]
 MC_THOROUGH = ["Pool_q1", "Pool_q2", "Pool_t1", "Pool_t2", "Pool_t3", "Pool_t4"]
 # (config, invariant that must be reported as violated)
 VARIANTS = [
-    ("Pool_v_relaxed_sub", "ReturnHappensAfterCalls"),
-    ("Pool_v_relaxed_load", "ReturnHappensAfterCalls"),
-    ("Pool_v_if_park", "ReturnAfterAllCalls"),
-    ("Pool_v_clone_late", "NoAccessAfterDrop"),
+    ("Pool_v_relaxed_sub", {"ReturnHappensAfterCalls"}),
+    ("Pool_v_relaxed_load", {"ReturnHappensAfterCalls"}),
+    # returning early breaks several invariants; whichever TLC reaches first
+    ("Pool_v_if_park", {"ReturnAfterAllCalls", "ReturnHappensAfterCalls", "NoAccessAfterDrop"}),
+    ("Pool_v_clone_late", {"NoAccessAfterDrop"}),
 ]
 
 
@@ -193,10 +194,10 @@ def run_mc(res, prop, tier):
             res.notes.append(f"MC {cfg}: actions never taken: {never}")
     # Anti-vacuity: each mechanism named in the anchors is necessary.
     for cfg, expect in VARIANTS:
-        r = V.tlc_mc("MC_Pool", cfg, workers=4, coverage=False)
+        r = V.tlc_mc("MC_Pool", cfg, workers=1, coverage=False)
         res.extra.setdefault("necessity_variants", []).append(
-            {"config": cfg, "expected": expect, "got": r.get("violated")})
-        if r.get("violated") != expect:
+            {"config": cfg, "expected": sorted(expect), "got": r.get("violated")})
+        if r.get("violated") not in expect:
             raise V.ToolError(f"necessity variant {cfg}: expected {expect}, got {r.get('violated')}")
 
 
